@@ -22,7 +22,7 @@ TUseSeqs == UseSeqsUpTo(3)
 Q2UseSeqs == [1..3 -> {<<"ty", "a">>, <<"ty", "b">>, <<"mod", "a">>}]
 NoPerts == {"none"}
 AllDefSets == SUBSET {"m", "a", "b", "n"}
-QPerts == {"none", "addtype", "addvft", "othername", "addmod", "addfirst", "shadowown", "enclosing"}
+QPerts == {"none", "addtype", "addvft", "othername", "addmod", "addfirst", "shadowown", "enclosing", "shadowmod", "rawtwin", "dotdir"}
 
 (* where the name may be defined, and the size it has there *)
 Places == <<"m", "a", "b", "n">>
@@ -52,19 +52,27 @@ MkInput(ptr, name, defs, uses, pert) ==
       Own == TypeDef("Own", "pub", <<Field("v", "pub", <<>>, TArr(TNm("u8"), 3), None, FALSE)>>)
       R2 == [R EXCEPT !.fields = Append(@, Field("o", "pub", <<>>, TNm("Own"), None, FALSE)), !.packed = TRUE]
       W(sz) == TypeDef("W", "pub", <<Field("v", "pub", <<>>, TArr(TNm("u8"), sz), None, FALSE)>>)
-      RN == TypeDef("RN", "pub", <<Field("w", "pub", <<>>, TNm("W"), None, FALSE)>>)
+      RN == [TypeDef("RN", "pub", <<Field("w", "pub", <<>>, TNm("W"), None, FALSE)>>
+                                    \o (IF "n" \in defs THEN <<Field("own", "pub", <<>>, TNm(name), None, FALSE)>> ELSE <<>>))
+               EXCEPT !.packed = TRUE]
       mm == [Module(<<"m">>, [i \in DOMAIN uses |-> UsePath(name, uses[i])], own("m") \o <<Own, R2>>)
                EXCEPT !.impls = <<Impl("R", <<g>>)>>]
       ma == Module(<<"a">>, <<>>, own("a") \o (IF pert = "othername" THEN <<DefOf("Other", "b")>> ELSE <<>>)
                                   \o (IF pert = "shadowown" THEN <<[Own EXCEPT !.fields[1].ty = TArr(TNm("u8"), 8)]>> ELSE <<>>)
-                                  \o (IF pert = "enclosing" THEN <<W(2)>> ELSE <<>>))
+                                  \o (IF pert = "enclosing" THEN <<W(2)>> ELSE <<>>)
+                                  (* a type in the enclosing module named like the nested module *)
+                                  \o (IF pert = "shadowmod" THEN <<TypeDef("n", "pub", <<>>)>> ELSE <<>>))
       mb == Module(<<"b">>, <<>>, own("b") \o <<W(4)>> \o extraB)
       mn == Module(<<"a", "n">>, <<<<"b">>>>, own("n") \o <<RN>>)
       mz == Module(<<"zz">>, <<<<"a">>>>, <<DefOf(name, "b"), Unrelated>>)
+      mraw == Module(<<"r#m">>, <<>>, <<Unrelated>>)
+      mdot == Module(<<"a.x", "n">>, <<<<"b">>>>, <<Unrelated>>)
       base == <<mm, ma, mb, mn>>
   IN [ptr |-> ptr, gen |-> [ptr |-> ptr, name |-> name, defs |-> defs, uses |-> uses],
       mods |-> CASE pert = "addmod" -> base \o <<mz>>
                  [] pert = "addfirst" -> <<mz>> \o base
+                 [] pert = "rawtwin" -> base \o <<mraw>>
+                 [] pert = "dotdir" -> <<mdot>> \o base
                  [] OTHER -> base]
 
 BaseOf(inp) == MkInput(inp.gen.ptr, inp.gen.name, inp.gen.defs, inp.gen.uses, "none")
@@ -109,10 +117,15 @@ NFile(files) == CHOOSE f \in files : f.path = <<"a", "n">>
 NUntouched == \A mi \in DOMAIN input.mods : input.mods[mi].path = <<"b">> =>
                  \A i \in DOMAIN input.mods[mi].defs : input.mods[mi].defs[i].name # "Zed"
 
+(* a type `n` added to module `a` sits at the path a::n; if m imports that path the change is not unrelated to m *)
+MUntouched ==
+  ~(\E mi \in DOMAIN input.mods : input.mods[mi].path = <<"a">> /\ \E i \in DOMAIN input.mods[mi].defs : input.mods[mi].defs[i].name = "n")
+  \/ <<"a", "n">> \notin Range(MMod.uses)
+
 Inv_C19 ==
   Accepted =>
     LET b == DetRunOn(BaseOf(input))
-    IN b.ok => /\ MFile(out) = MFile(b.out)
+    IN b.ok => /\ MUntouched => MFile(out) = MFile(b.out)
                /\ NUntouched => NFile(out) = NFile(b.out)
 
 PViol == (IF Inv_C11 THEN {} ELSE {"C11"}) \cup (IF Inv_C19 THEN {} ELSE {"C19"})
